@@ -30,16 +30,18 @@ META = dict(
 
 CONTENT = {"x": b"x\n", "y": b"yy\n"}          # different sizes: no racy-stat ambiguity
 RCONTENT = {v: k for k, v in CONTENT.items()}
-UNIVERSE = ["a", "b", "d", "d/a", "e", "e/a"]
+UNIVERSE = ["a", "b", "d", "d/a", "e", "e/a", "d2", "d2/a", "da"]
 SMALL = ["a", "b", "d", "d/a"]
+PASSIVE = ["d2", "d2/a", "da"]        # committed by-standers whose names start with "d": no call is aimed at them
 FORMATS = {"2a": "bzr", "knit": "bzr", "git": "git"}       # tree format -> spec flavour
-INVS = ("TypeOK", "ValidTree", "IdsFromBasis", "BasisSelfDiffEmpty", "ObsConsistent")
-PROPS = ("RejectedIsNoop", "CommitIsClean", "RevertIsClean")
+INVS = ("TypeOK", "ValidTree", "IdsFromBasis", "BasisSelfDiffEmpty", "ObsConsistent", "PassiveUntouched")
+PROPS = ("RejectedIsNoop", "CommitIsClean")        # RevertIsClean is an Assert inside the RevertTo action
 
 
 def cfg(flavour, paths, inits, depth, invariants=INVS, props=PROPS):
-    t = "SPECIFICATION Spec\nCONSTANTS\n  Flavour = \"%s\"\n  Paths = {%s}\n  InitKinds = {%s}\n  MaxDepth = %d\n" % (
-        flavour, ", ".join('"%s"' % p for p in paths), ", ".join('"%s"' % k for k in inits), depth)
+    t = "SPECIFICATION Spec\nCONSTANTS\n  Flavour = \"%s\"\n  Paths = {%s}\n  InitKinds = {%s}\n  MaxDepth = %d\n  Passive = {%s}\n" % (
+        flavour, ", ".join('"%s"' % p for p in paths), ", ".join('"%s"' % k for k in inits), depth,
+        ", ".join('"%s"' % p for p in paths if p in PASSIVE))
     return t + "".join("INVARIANT %s\n" % i for i in invariants) + "".join("PROPERTY %s\n" % p for p in props)
 
 
@@ -48,20 +50,30 @@ TEMPLATES = {}
 
 
 def make_templates(ctx):
-    """One pristine tree per (format, initial state); replays work on copies."""
+    """One pristine tree per (format, initial state, with / without the by-standers); replays work on copies."""
     from breezy import controldir
     for fmt in FORMATS:
-        for init in ("empty", "pop"):
+        for init in ("empty", "pop", "pop+"):
             p = os.path.join(ctx.tmp("templates"), "%s-%s" % (fmt, init))
             wt = controldir.ControlDir.create_standalone_workingtree(
                 p, format=controldir.format_registry.make_controldir(fmt))
-            if init == "pop":
+            if init != "empty":
                 write(p, "a", "x")
                 os.mkdir(os.path.join(p, "d"))
                 write(p, "d/a", "x")
-                wt.add(["a", "d", "d/a"])
+                names = ["a", "d", "d/a"]
+                if init == "pop+":
+                    os.mkdir(os.path.join(p, "d2"))
+                    write(p, "d2/a", "y")
+                    write(p, "da", "y")
+                    names += PASSIVE
+                wt.add(names)
                 wt.commit("base")
             TEMPLATES[(fmt, init)] = p
+
+
+def template(fmt, init, paths):
+    return TEMPLATES[(fmt, "pop+" if init == "pop" and "da" in paths else init)]
 
 
 def write(root, rel, c):
@@ -257,7 +269,7 @@ def replay_paths(sub, chunk):
         pre = want(gkey, cur)
         init = "pop" if "a" in pre["basis"] else "empty"
         root = os.path.join(sub.workdir, "t")
-        shutil.copytree(TEMPLATES[(fmt, init)], root, symlinks=True)
+        shutil.copytree(template(fmt, init, paths), root, symlinks=True)
         try:
             wt = open_tree(root)
             calls = []
@@ -281,7 +293,7 @@ def replay_paths(sub, chunk):
                         sub.drift("%s left the tree locked after %s" % (name, type(e).__name__), {"format": fmt, "calls": calls})
                         break
                 calls.append([name] + args + [outcome if exc is None else "rejected:" + type(exc).__name__])
-                rep = {"format": fmt, "init": init, "calls": calls}
+                rep = {"format": fmt, "init": init, "paths": list(paths), "calls": calls}
                 live = project(wt, flavour)
                 fresh_wt = open_tree(root)
                 fresh = project(fresh_wt, flavour)
@@ -342,6 +354,7 @@ def merged_graph(nodes, edges, inits):
 
 
 _EDGES = {}
+ACTIONS = {"Add", "Mkdir", "Remove", "Rename", "Move", "Edit", "Chmod", "Commit", "RevertTo", "Reopen"}
 
 
 def load_graph(ctx, flavour, paths, inits, depth, label, workers=8, cfg_name=None):
@@ -362,17 +375,21 @@ def load_graph(ctx, flavour, paths, inits, depth, label, workers=8, cfg_name=Non
     out = {nid: {} for nid in nodes}
     for a, act, b in edges:
         out[a].setdefault(act, []).append(b)
+    seen = {act.split("(")[0] for _, act, _ in edges}
+    if seen != ACTIONS:         # e.g. an action TLC cannot split into instances is labelled "Next"
+        ctx.machinery("state graph of WorkingTree has edge labels %s, expected %s" % (sorted(seen), sorted(ACTIONS)))
     GRAPHS[gkey] = (nodes, out)
     _EDGES[gkey] = (edges, ini)
     return gkey
 
 
 def prefetch(ctx, inits, specs):
-    """The TLC runs of a tier side by side (own cfg names: vf.tlc derives them from a directory listing, which races)."""
+    """Start the TLC runs of a tier side by side (own cfg names: vf.tlc derives them from a directory listing, which
+    races); returns the function that waits for them."""
     import time
     from concurrent.futures import ThreadPoolExecutor
     d = tlc.stage(ctx.workdir)
-    width = max(1, min(len(specs), core.max_workers() // 4 or 1))
+    width = max(1, min(len(specs), core.max_workers() // 2))       # width x per <= the worker cap
     per = max(1, core.max_workers() // width)
     jobs = []
     for i, (fl, paths, depth) in enumerate(specs):
@@ -386,8 +403,14 @@ def prefetch(ctx, inits, specs):
         time.sleep(0.2 * i)         # vf.tlc names its scratch files by the clock
         return load_graph(ctx, fl, paths, inits, depth, "MC + graph %s %d paths depth %d" % (fl, len(paths), depth), per, name)
 
-    with ThreadPoolExecutor(width) as ex:
-        list(ex.map(one, jobs))
+    ex = ThreadPoolExecutor(width)
+    futures = [ex.submit(one, j) for j in jobs]
+
+    def join():
+        for f in futures:
+            f.result()
+        ex.shutdown()
+    return join
 
 
 def graph_paths(ctx, flavour, paths, inits, depth, label, max_len=None):
@@ -404,15 +427,19 @@ def graph_paths(ctx, flavour, paths, inits, depth, label, max_len=None):
     return gkey, cover
 
 
-WIDE = ["a", "d", "d/a", "e", "e/a"]          # a second directory: renames / moves of directories with children
+# a second directory: renames / moves of directories with children - next to committed by-standers whose names have
+# the directory's name as a string prefix (a directory with a child and a file)
+WIDE = ["a", "d", "d/a", "e", "e/a"] + PASSIVE
 
 
 def run(ctx):
     import logging
     env.init()
     logging.getLogger("brz").setLevel(logging.ERROR)        # revert's "Conflict adding file ..." notes
-    make_templates(ctx)
     inits = ["empty", "pop"]
+    wait = prefetch(ctx, inits, [("bzr", SMALL, 4), ("git", SMALL, 4), ("bzr", WIDE, 3), ("git", WIDE, 3)])
+    make_templates(ctx)                                      # while TLC runs
+    wait()
     jobs = []
 
     def plan(fl, fmts, paths, depth, sample=None, max_len=None):
@@ -440,12 +467,11 @@ def run(ctx):
                 return
         ctx.machinery("vacuity guard: the %s state graph has no state with %s" % (flavour, sorted(need)))
 
-    prefetch(ctx, inits, [("bzr", SMALL, 4), ("git", SMALL, 4), ("bzr", WIDE, 3), ("git", WIDE, 3)])
     if ctx.quick:
-        plan("bzr", ["2a"], SMALL, 4, 500)
-        plan("git", ["git"], SMALL, 4, 300)
+        plan("bzr", ["2a"], SMALL, 4, 400)
+        plan("git", ["git"], SMALL, 4, 250)
         plan("bzr", ["2a"], WIDE, 3, 150)
-        plan("git", ["git"], WIDE, 3, 100)
+        plan("git", ["git"], WIDE, 3, 150)
     else:
         plan("bzr", ["2a"], SMALL, 4)                       # complete transition cover
         plan("bzr", ["knit"], SMALL, 4, 3000)               # WorkingTree3
@@ -462,8 +488,8 @@ def run(ctx):
     ctx.cov["exhaustive"] = not ctx.quick
     ctx.rule("paths = transition cover of TLC's state graph of WorkingTree.tla: every edge = one call in one abstract state "
              "reachable within 4 calls from the empty or the committed tree over {a, b, d/, d/a} (quick: seeded sample of "
-             "500 bzr + 300 git cover paths, plus 150 + 100 of depth 3 over {a, d/, d/a, e/, e/a}; thorough: the whole cover on 2a and git, 3000 on WorkingTree3, the whole cover "
-             "of depth 3 over {a, d/, d/a, e/, e/a}, and 3000 sampled 5-7-call paths per flavour through the same graph); distinct non-trivial = "
+             "400 bzr + 250 git cover paths, plus 150 + 150 of depth 3 over {a, d/, d/a, e/, e/a} with the committed by-standers d2/, d2/a, da; thorough: the whole cover on 2a and git, 3000 on WorkingTree3, the whole cover "
+             "of depth 3 over {a, d/, d/a, e/, e/a} + by-standers, and 3000 sampled 5-7-call paths per flavour through the same graph); distinct non-trivial = "
              "(format, initial tree, call sequence with outcomes) with at least two calls")
 
 
@@ -474,7 +500,7 @@ def replay(ctx, rep):
     r = rep["replay"]
     fmt, flavour = r["format"], FORMATS[r["format"]]
     root = os.path.join(ctx.workdir, "t")
-    shutil.copytree(TEMPLATES[(fmt, r["init"])], root, symlinks=True)
+    shutil.copytree(template(fmt, r["init"], r.get("paths", SMALL)), root, symlinks=True)
     wt = open_tree(root)
     print("signature:", rep["signature"], "\n", rep["description"])
     for call in r["calls"]:
